@@ -286,7 +286,10 @@ InGen(doc, args, out) ==
 \* produces byte-identical output"): the input is the schema file and the arguments, the
 \* previous content of the directory is no part of it.  So Observed / ObsAccepts / ObsRecord
 \* do not take the directory: an observation made over an existing output file must meet the
-\* contract and be identical to the observation of the same input in a fresh directory.  The
+\* contract and be identical to the observation of the same input in a fresh directory - also
+\* when the schema file has not been touched since the earlier run and only the arguments
+\* differ (the ignore argument is an input too: an output that is newer than the schema file is
+\* not therefore the output of THIS input).  The
 \* machines carry the directory's content (the input whose output the file holds, NoFile in a
 \* fresh directory) only to enumerate / to name such histories.
 NoFile == [doc |-> <<>>, args |-> [form |-> "fresh", ign |-> ""]]
